@@ -120,6 +120,7 @@ func (s *scalarStream) rt(v interface{}) (wire []byte, out interface{}, encErr, 
 	s.r.B, s.r.Off, s.r.Calls = wire, 0, 0
 	s.n++
 	s.r.Chunk = []int{0, 1, 3}[s.n%3] // whole value at once / one byte per Read / three bytes per Read
+	s.r.EOFWithData = s.n%2 == 1      // the last byte arrives together with io.EOF
 	out, decErr = s.d.ReadObject()
 	consumed = s.r.Off
 	return
